@@ -3,6 +3,8 @@
 Require Import Base Suggestion Rebase ListLemmas SuggestionProofs SpanSchemas Tables_spanexprs SpanSites.
 Require Import Cache C03Span C03SpanProofs C03LintGroup C03LintGroupProofs.
 Require Import C05Lru C03LintGroupLru C03LintGroupLruProofs Tables_c03cache.
+Require TokenSeq Pattern.
+Require Import C03ChunkPremise.
 
 (* the edit primitive: total on spans inside the text *)
 Theorem C03_apply_total : forall s sp src, span_in (length src) sp -> is_ok (apply s sp src) = true.
@@ -436,14 +438,62 @@ Print Assumptions C03_lintgroup_lru_history_in_bounds.
 
 (* non-vacuity: with capacity 1 the second clause of "xy.ab." pops the first (the next call misses twice and the cache
    holds one entry), with capacity 2 the next call hits twice with the same lints; the premises of the theorem hold on
-   a history with such an eviction; the capacity read from lint_group.rs is 10000 *)
+   a history with such an eviction; the capacity read from lint_group.rs (10 000 today; the model follows it) is non-zero *)
 Example C03_lintgroup_lru_nonvacuous :
   (exists s1 o1 s2 o2, exl_hits 1 (lg_fresh 129%N) = Ok (s1, o1, [false; false]) /\ exl_hits 1 s1 = Ok (s2, o2, [false; false]) /\
                        length (lg_cache s2) = 1) /\
   (exists s1 o1 s2 o2, exl_hits 2 (lg_fresh 129%N) = Ok (s1, o1, [false; false]) /\ exl_hits 2 s1 = Ok (s2, o2, [true; true]) /\
                        o1 = o2 /\ Forall (lint_in 6) o2) /\
-  rhist_ok N N exl_hist /\ lint_group_cache_cap_N = 10000%N.
+  rhist_ok N N exl_hist /\ N.leb 1 lint_group_cache_cap_N = true.
 Proof. exact (conj (proj1 exl_capacity_matters) (conj (proj2 exl_capacity_matters) (conj exl_hist_ok eq_refl))). Qed.
+
+(* ================= the chunk premise of the pattern rules, reduced to the schemas' side conditions ================= *)
+(* every classified span source (a token's span, a hull, Between, SuffixSpan, WithLen1 — with its side condition, which
+   is part of src_denotes) over tokens inside a window [lo, hi] denotes a span inside that window (lo = 0: the in-bounds
+   lemma C03_lint_src_in_bounds) *)
+Theorem C03_lint_src_within_window :
+  forall lo hi ts k s,
+    Forall (fun t => lo <= sstart t /\ sstart t <= send t /\ send t <= hi) ts -> src_denotes ts k s ->
+    lo <= sstart s /\ sstart s <= send s /\ send s <= hi.
+Proof. exact src_denotes_within. Qed.
+Check C03_lint_src_within_window :
+  forall lo hi ts k s,
+    Forall (fun t => lo <= sstart t /\ sstart t <= send t /\ send t <= hi) ts -> src_denotes ts k s ->
+    lo <= sstart s /\ sstart s <= send s /\ send s <= hi.
+Print Assumptions C03_lint_src_within_window.
+
+(* for EVERY pattern of Pattern.v's inductive, every chunk whose tokens have start <= end (C02) and every range
+   run_on_chunk hands to match_to_lint (C01's roc_ranges_are_matches: a non-empty slice of the chunk): whatever span a
+   classified source denotes over the spans of THOSE tokens makes a lint inside the chunk's hull — the premise
+   `prules_ok` of C03_lintgroup_history_in_bounds, for a rule body that builds its span from the matched tokens by one
+   of the sources of C03_rule_lint_sites_known.  What stays monitored: the side conditions, and that the body uses the
+   matched tokens and nothing else (monitor pattern_rule_lint_outside_chunk). *)
+Theorem C03_pattern_lint_within_chunk :
+  forall leaf oracle src p (chunk : list TokenSeq.tok) l sp,
+    Pattern.run_on_chunk leaf oracle p chunk src = Ok l ->
+    hull_of (map cview chunk) = Ok (Some sp) ->
+    Forall (fun t => sstart (TokenSeq.tspan t) <= send (TokenSeq.tspan t)) chunk ->
+    Forall (fun ab => fst ab < snd ab /\ snd ab <= length chunk /\
+              forall k s body, src_denotes (map TokenSeq.tspan (slice chunk (fst ab) (snd ab))) k s -> lint_within sp (mkclint s body)) l.
+Proof. exact pattern_lint_within_chunk. Qed.
+Check C03_pattern_lint_within_chunk :
+  forall leaf oracle src p (chunk : list TokenSeq.tok) l sp,
+    Pattern.run_on_chunk leaf oracle p chunk src = Ok l ->
+    hull_of (map cview chunk) = Ok (Some sp) ->
+    Forall (fun t => sstart (TokenSeq.tspan t) <= send (TokenSeq.tspan t)) chunk ->
+    Forall (fun ab => fst ab < snd ab /\ snd ab <= length chunk /\
+              forall k s body, src_denotes (map TokenSeq.tspan (slice chunk (fst ab) (snd ab))) k s -> lint_within sp (mkclint s body)) l.
+Print Assumptions C03_pattern_lint_within_chunk.
+
+Example C03_chunk_premise_nonvacuous :
+  Pattern.run_on_chunk (fun _ _ _ => Ok true) (fun _ _ _ => Ok true) (Pattern.PSeq [Pattern.PAny; Pattern.PAny]) exc_chunk [] = Ok [(0, 2)] /\
+  hull_of (map cview exc_chunk) = Ok (Some (mkspan 3 9)) /\
+  src_denotes (map TokenSeq.tspan (slice exc_chunk 0 2)) LHull (mkspan 3 7) /\
+  src_denotes (map TokenSeq.tspan (slice exc_chunk 0 2)) LTokSpan (mkspan 3 6) /\
+  src_denotes (map TokenSeq.tspan (slice exc_chunk 0 2)) LBetween (mkspan 3 7) /\
+  src_denotes (map TokenSeq.tspan (slice exc_chunk 0 2)) LWithLen1 (mkspan 3 4) /\
+  lint_within (mkspan 3 9) (mkclint (mkspan 3 7) 0%N) /\ ~ lint_within (mkspan 3 9) (mkclint (mkspan 7 10) 0%N).
+Proof. exact chunk_premise_example. Qed.
 
 (* non-vacuity: all three kinds on a concrete text, incl. the equal-length in-place path, a span
    touching the end, and the rejected case *)
